@@ -28,14 +28,27 @@ impl<Job> Clone for JobBroker<Job> {
 
 impl<Job> Drop for JobBroker<Job> {
     fn drop(&mut self) {
+        #[cfg(feature = "getong_stateright_verif")]
+        crate::verif::yield_point("market:drop:before_lock");
         let mut market = self.market.lock();
         log::trace!(
             "{}: Dropped, closing the market.",
             std::thread::current().name().unwrap_or_default()
         );
+        #[cfg(feature = "getong_stateright_verif")]
+        let (verif_was_open, verif_discarded) = (
+            market.open,
+            market.job_batches.iter().map(VecDeque::len).collect::<Vec<_>>(),
+        );
         market.open = false;
         market.job_batches.clear();
         market.open_count = market.open_count.saturating_sub(1);
+        #[cfg(feature = "getong_stateright_verif")]
+        crate::verif::emit(self.verif_id(), || crate::verif::MarketEventKind::Drop {
+            was_open: verif_was_open,
+            discarded: verif_discarded,
+            open_count: market.open_count,
+        });
         self.has_new_jobs.notify_all();
     }
 }
@@ -66,6 +79,34 @@ where
                 job_batches: Vec::new(),
             })),
         };
+        #[cfg(feature = "getong_stateright_verif")]
+        {
+            let weak = Arc::downgrade(&s.market);
+            let id = s.verif_id();
+            crate::verif::register_market(
+                id,
+                Box::new(move |probe_only| {
+                    let market = weak.upgrade().ok_or(crate::verif::NoSnapshot::Gone)?;
+                    if probe_only {
+                        return Err(crate::verif::NoSnapshot::Busy);
+                    }
+                    let market = market
+                        .try_lock_for(Duration::from_millis(100))
+                        .ok_or(crate::verif::NoSnapshot::Busy)?;
+                    Ok(crate::verif::MarketSnapshot {
+                        market: id,
+                        open: market.open,
+                        thread_count: market.thread_count,
+                        open_count: market.open_count,
+                        batch_lens: market.job_batches.iter().map(VecDeque::len).collect(),
+                    })
+                }),
+            );
+            crate::verif::emit(id, || crate::verif::MarketEventKind::New {
+                thread_count,
+                timeout: close_at.is_some(),
+            });
+        }
         if let Some(closing_time) = close_at {
             let s1 = s.clone();
             std::thread::Builder::new()
@@ -77,6 +118,11 @@ where
                         log::debug!("Reached timeout, triggering shutdown");
                         market.open = false;
                     }
+                    #[cfg(feature = "getong_stateright_verif")]
+                    crate::verif::emit(s1.verif_id(), || crate::verif::MarketEventKind::TimeoutTick {
+                        expired: closing_time < now,
+                        open: market.open,
+                    });
                     if !market.open {
                         break;
                     }
@@ -93,8 +139,12 @@ impl<Job> JobBroker<Job> {
     ///
     /// Returns an empty result if there are no more jobs coming.
     pub fn pop(&mut self) -> VecDeque<Job> {
+        #[cfg(feature = "getong_stateright_verif")]
+        crate::verif::yield_point("market:pop:before_lock");
         let mut market = self.market.lock();
         if !market.open {
+            #[cfg(feature = "getong_stateright_verif")]
+            crate::verif::emit(self.verif_id(), || crate::verif::MarketEventKind::PopClosed);
             return VecDeque::new();
         }
         loop {
@@ -103,6 +153,11 @@ impl<Job> JobBroker<Job> {
                     "{}: Got jobs. Working.",
                     std::thread::current().name().unwrap_or_default()
                 );
+                #[cfg(feature = "getong_stateright_verif")]
+                crate::verif::emit(self.verif_id(), || crate::verif::MarketEventKind::PopGot {
+                    len: jobs.len(),
+                    remaining: market.job_batches.len(),
+                });
                 return jobs;
             } else {
                 // Otherwise more work may become available.
@@ -114,6 +169,8 @@ impl<Job> JobBroker<Job> {
                         "{}: No jobs. Last running thread.",
                         std::thread::current().name().unwrap_or_default()
                     );
+                    #[cfg(feature = "getong_stateright_verif")]
+                    crate::verif::emit(self.verif_id(), || crate::verif::MarketEventKind::PopCloseLast);
                     self.has_new_jobs.notify_all();
                     market.open = false;
                     return VecDeque::new();
@@ -123,18 +180,35 @@ impl<Job> JobBroker<Job> {
                     std::thread::current().name().unwrap_or_default(),
                     market.open_count
                 );
+                #[cfg(feature = "getong_stateright_verif")]
+                crate::verif::emit(self.verif_id(), || crate::verif::MarketEventKind::PopWait {
+                    open_count: market.open_count,
+                });
                 self.has_new_jobs.wait(&mut market);
                 market.open_count += 1;
+                #[cfg(feature = "getong_stateright_verif")]
+                crate::verif::emit(self.verif_id(), || crate::verif::MarketEventKind::PopWoke {
+                    open_count: market.open_count,
+                    open: market.open,
+                });
             }
         }
     }
 
     /// Push a new set of job batches into the market.
     pub fn push(&mut self, jobs: VecDeque<Job>) {
+        #[cfg(feature = "getong_stateright_verif")]
+        crate::verif::yield_point("market:push:before_lock");
         let mut market = self.market.lock();
         if !market.open {
+            #[cfg(feature = "getong_stateright_verif")]
+            crate::verif::emit(self.verif_id(), || crate::verif::MarketEventKind::PushClosed {
+                len: jobs.len(),
+            });
             return;
         }
+        #[cfg(feature = "getong_stateright_verif")]
+        crate::verif::emit(self.verif_id(), || crate::verif::MarketEventKind::Push { len: jobs.len() });
         market.job_batches.push(jobs);
         log::trace!(
             "{}: Pushing jobs. running={}",
@@ -147,8 +221,14 @@ impl<Job> JobBroker<Job> {
     /// Split the jobs to be done into groups, one for each currently waiting thread and send them
     /// on.
     pub fn split_and_push(&mut self, jobs: &mut VecDeque<Job>) {
+        #[cfg(feature = "getong_stateright_verif")]
+        crate::verif::yield_point("market:split:before_lock");
         let mut market = self.market.lock();
         if !market.open {
+            #[cfg(feature = "getong_stateright_verif")]
+            crate::verif::emit(self.verif_id(), || crate::verif::MarketEventKind::SplitClosed {
+                cleared: jobs.len(),
+            });
             // remove any jobs to be done
             jobs.clear();
             return;
@@ -165,19 +245,39 @@ impl<Job> JobBroker<Job> {
             size,
             market.open_count
         );
+        #[cfg(feature = "getong_stateright_verif")]
+        let (verif_before, mut verif_shared) = (jobs.len(), Vec::new());
         for _ in 1..pieces {
             let to_share = jobs.split_off(jobs.len() - size);
             if to_share.is_empty() {
                 continue;
             }
+            #[cfg(feature = "getong_stateright_verif")]
+            verif_shared.push(to_share.len());
             market.job_batches.push(to_share);
             self.has_new_jobs.notify_one();
         }
+        #[cfg(feature = "getong_stateright_verif")]
+        crate::verif::emit(self.verif_id(), || crate::verif::MarketEventKind::Split {
+            before: verif_before,
+            pieces,
+            shared: verif_shared,
+            kept: jobs.len(),
+            open_count: market.open_count,
+        });
     }
 
     /// See whether the market is closed.
     pub fn is_closed(&self) -> bool {
         let market = self.market.lock();
         !market.open && market.job_batches.is_empty() && market.open_count == 0
+    }
+}
+
+#[cfg(feature = "getong_stateright_verif")]
+impl<Job> JobBroker<Job> {
+    /// Identifies the market behind this broker (address of the shared allocation).
+    pub(crate) fn verif_id(&self) -> usize {
+        Arc::as_ptr(&self.market) as *const () as usize
     }
 }
